@@ -115,6 +115,27 @@ def run_case(case):
                 flag = s
                 break
         if flag is None:
+            # cancel-jobs ends successfully only when the submission was already complete or after marking it canceled
+            # (it exits 1 when it cannot get the role): a successful cancel of an incomplete submission that leaves it
+            # neither canceled nor complete is a cancel that did not happen -- the quantifier names such moments (some
+            # batches finished, jobs still unsubmitted)
+            for r in w.events("proc_end"):
+                if r.get("name") == "cancel" and r.get("exit") == 0 and not r.get("exc"):
+                    snap_after = [s for s in w.snaps if s["i"] <= r["i"]]
+                    cc = None
+                    if snap_after:
+                        try:
+                            cc = json.loads(snap_after[-1]["files"].get("cluster_config.json") or "null")
+                        except ValueError:
+                            cc = None
+                    if cc is not None and not cc.get("is_complete") and not cc.get("is_canceled"):
+                        later = [x for x in w.events("sbatch") if x["i"] > r["i"]]
+                        v.append(C.viol("C14:cancel-jobs-succeeded-without-canceling",
+                                        f"cancel-jobs exited 0 while the submission was neither complete nor marked canceled "
+                                        f"(completed_jobs={cc.get('completed_jobs')}/{cc.get('num_jobs')}); batches handed to the "
+                                        f"HPC afterwards: {[x['batch'] for x in later]}"))
+                        res["sample"] = C.sample_of(case, sim)
+                        res["replay_log"] = w.abridged_log(150)
             res["classes"].append("cancel_not_effective")  # e.g. submission was already complete
             res["nontrivial"] = False
             return res
